@@ -197,8 +197,22 @@ impl ZkStdLibArch {
         reader.read_exact(&mut version)?;
         let version = u32::from_le_bytes(version);
         match version {
-            1 => bincode::decode_from_std_read(reader, standard())
-                .map_err(|e| io::Error::new(io::ErrorKind::InvalidData, e)),
+            1 => {
+                let arch: Self = bincode::decode_from_std_read(reader, standard())
+                    .map_err(|e| io::Error::new(io::ErrorKind::InvalidData, e))?;
+                // The range-check columns are taken among the arithmetic columns
+                // (all but the first one).
+                if arch.nr_pow2range_cols as usize >= NB_ARITH_COLS {
+                    return Err(io::Error::new(
+                        io::ErrorKind::InvalidData,
+                        format!(
+                            "Unsupported number of pow2range columns: {}",
+                            arch.nr_pow2range_cols
+                        ),
+                    ));
+                }
+                Ok(arch)
+            }
             _ => Err(io::Error::new(
                 io::ErrorKind::InvalidData,
                 format!("Unsupported ZKStd version: {}", version),
